@@ -106,6 +106,12 @@ fn accessor_clauses(w: u32) -> Result<(), String> {
 pub fn run(run: &mut Run) -> PResult {
     run.rule = "all 14 x 5 rank/suit enumeration pairs through CKCNumber::create; the 52 named constants, POKER_DECK and Deck::get against the layout formula prime | rank<<8 | suit bit | rank bit; every accessor on the 52 cards and blank; all 2^32 words through CardNumber::filter and <u32 as PokerCard>::filter. Non-trivial = the non-card words within Hamming distance 2 of a card (the near misses) plus the 52 cards and the 18 blank-member pairs; distinct = distinct words / pairs".into();
     super::regress::replay_dir(run, "C10", check_case)?;
+    {
+        let items: Vec<u32> = card::DECK.iter().copied().chain([0u32]).collect();
+        super::common::disturbance_pass(run, &items, &|w| accessor_clauses(*w), &|w| ("C10.accessor".into(), json!({"word": hex(*w)}), card::render(*w)))?;
+        let pairs: Vec<(CardRank, CardSuit)> = CardRank::iter().flat_map(|r| CardSuit::iter().map(move |s| (r, s))).collect();
+        super::common::disturbance_pass(run, &pairs, &|p| construct_clause(p.0, p.1), &|p| ("C10.create".into(), json!({"rank": format!("{:?}", p.0), "suit": format!("{:?}", p.1)}), format!("{:?}/{:?}", p.0, p.1)))?;
+    }
     // construction
     let mut n = 0u64;
     let mut blank_pairs = 0u64;
@@ -211,6 +217,9 @@ pub fn run(run: &mut Run) -> PResult {
 }
 
 pub fn check_case(clause: &str, case: &Value) -> Result<(), String> {
+    if clause.ends_with(".after_disturbance") {
+        return super::common::replay_after_disturbance(case, check_case);
+    }
     match clause {
         "C10.create" => {
             let (rn, sn) = (case["rank"].as_str().unwrap_or(""), case["suit"].as_str().unwrap_or(""));
